@@ -60,13 +60,25 @@ Proof.
   pose proof (name_cost_len nm). generalize dependent (name_cost nm). intros; lia.
 Qed.
 
+Lemma amt_cost_len am : amt_cost am <= L (print_amt am).
+Proof.
+  destruct am as [rw p | t | t sp n v p | t w0 pw | t w0 p | t w0 | t w0 u w1 p]; cbn [amt_cost]; try lia.
+  unfold print_amt. cbn [amt_lead amt_tail seg_cost]. pose proof (ntext_len t) as Hn.
+  unfold explicit_bparts. cbn [List.length]. repeat rewrite app_length. cbn [List.length].
+  rewrite fold_right_app. destruct w0 as [|h w0']; destruct (unit_text u ++ w1) as [|h2 T'] eqn:ET;
+    cbn [fold_right List.length]; rewrite <- ?app_length; rewrite ?ET; cbn [List.length]; lia.
+Qed.
+
 Lemma cost_len : forall h e, height e <= h -> cost e <= 2 * L (print_expr e) + 2.
 Proof.
   induction h as [|h IH]; intros e Hh.
   - destruct e; cbn [height] in Hh; lia.
   - destruct e as [a nm | nm w s0 first more trail s1 | s0 e acts s1].
     + cbn [cost print_expr]. rewrite app_length. pose proof (name_cost_len nm).
-      assert (2 <= name_cost nm) by (unfold name_cost; lia). generalize dependent (name_cost nm). intros; lia.
+      assert (2 <= name_cost nm) by (unfold name_cost; lia).
+      assert (Ha : ref_amt_cost a <= L (match a with Some (am, w) => print_amt am ++ w | None => [] end)).
+      { destruct a as [[am w]|]; cbn [ref_amt_cost]; [rewrite app_length; pose proof (amt_cost_len am); lia | lia]. }
+      generalize dependent (name_cost nm). generalize dependent (ref_amt_cost a). intros; lia.
     + cbn [height] in Hh. rewrite print_expr_step. cbn [cost]. fold (args_cost more).
       repeat (rewrite app_length; cbn [List.length]).
       pose proof (name_cost_len nm). pose proof (IH first ltac:(pose proof (height_first more first); lia)).
